@@ -247,9 +247,38 @@ static void check_help_arg(const std::vector<UArg>& as) {
    }
 }
 
+// single-argument help when one long key is a proper prefix of another one (input / input-file): the exact key must show its OWN
+// description in both definition orders; an unambiguous abbreviation of the longer key shows the longer one's
+static void check_help_arg_prefix_keys() {
+   for (int order = 0; order < 2; ++order) for (int kk0 = 0; kk0 < 2; ++kk0) for (int kk1 = 0; kk1 < 2; ++kk1) for (int hidden = 0; hidden < 2; ++hidden) {
+      struct Q { std::string spec; int arg; const char* form; };
+      std::vector<Q> qs = {{"input", 0, "exact-shorter"}, {"--input", 0, "exact-shorter"}, {"input-file", 1, "exact-longer"}, {"input-f", 1, "abbreviated-longer"}, {"input-", 1, "abbreviated-longer"}};
+      if (kk0) qs.push_back({"i", 0, "short"}); if (kk1) qs.push_back({"f", 1, "short"});
+      for (auto& q : qs) for (int sep = 0; sep < 2; ++sep) {
+         if (sep == 1 && q.spec[0] == '-') continue;
+         std::ostringstream out, err; int v0 = 1, v1 = 2; std::string exc;
+         std::vector<std::string> store = sep ? std::vector<std::string>{"--help-arg", q.spec} : std::vector<std::string>{"--help-arg=" + q.spec};
+         std::vector<char*> argv; argv.push_back(const_cast<char*>("prog")); for (auto& w : store) argv.push_back(&w[0]); argv.push_back(nullptr);
+         {
+            Handler h(out, err, Handler::hfHelpShort | Handler::hfHelpLong | Handler::hfUsageCont | Handler::hfHelpArg);
+            auto def0 = [&]() { auto* t = h.addArgument(kk0 ? "i,input" : "input", DEST_VAR(v0), "Description of MARK0 the shorter key"); if (hidden) t->setIsHidden(); };
+            auto def1 = [&]() { h.addArgument(kk1 ? "f,input-file" : "input-file", DEST_VAR(v1), "Description of MARK1 the longer key"); };
+            if (order) { def1(); def0(); } else { def0(); def1(); }
+            try { h.evalArguments(int(argv.size()) - 1, argv.data()); } catch (const std::exception& e) { exc = e.what(); }
+         }
+         ++g_evals; ++g_help_arg; vf::heartbeat();
+         std::string o = out.str(); bool own = o.find(q.arg == 0 ? "MARK0" : "MARK1") != std::string::npos, other = o.find(q.arg == 0 ? "MARK1" : "MARK0") != std::string::npos;
+         std::string ctx = std::string("arguments ") + (order ? "{input-file} {input}" : "{input} {input-file}") + (kk0 ? " with short i" : "") + (kk1 ? " with short f" : "") + (hidden ? " (input hidden)" : "") + ", request " + store[0] + (sep ? " " + store[1] : "") + "\n  --- output ---\n" + o.substr(0, 400) + (err.str().empty() ? "" : "\n  --- error stream ---\n" + err.str().substr(0, 200)) + (exc.empty() ? "" : "\n  exception: " + exc);
+         if (other) vf::violation(std::string("help-arg-other-description|prefix-keys|") + q.form + (order ? "|longer-first" : "|shorter-first"), "single-argument help prints the description of the OTHER argument: " + ctx, "prefix-keys");
+         else if (!own) vf::violation(std::string("help-arg-description-missing|prefix-keys|") + q.form + (order ? "|longer-first" : "|shorter-first"), "single-argument help does not print the argument's description: " + ctx, "prefix-keys");
+         vf::outcome(std::string("help-arg prefix-keys ") + q.form + (own ? " described" : " not described"));
+      }
+   }
+}
+
 int main(int argc, char** argv) {
    vf::init(argc, argv);
-   if (vf::replaying()) { vf::ctx().only = strtoll(vf::replay_case().c_str(), nullptr, 10); vf::ctx().have_replay = false; }
+   if (vf::replaying()) { vf::ctx().only = vf::replay_case() == "prefix-keys" ? 0 : strtoll(vf::replay_case().c_str(), nullptr, 10); vf::ctx().have_replay = false; }
    const bool th = vf::thorough();
    // per-argument domains
    struct KeyShape { int kind, len; };
@@ -266,6 +295,8 @@ int main(int argc, char** argv) {
       if (helparg) check_help_arg(as);
       vf::nontrivial_by_construction();
    };
+   // ---- prefix-related long keys in the single-argument help (one case)
+   if (vf::want_case()) { vf::note("help-arg with prefix-related keys"); check_help_arg_prefix_keys(); vf::nontrivial_by_construction(); }
    // ---- k = 1: full per-argument domain
    for (auto& sh : shapes_full) for (int m = 0; m < 2; ++m) for (int v = 0; v < NVIS; ++v) for (int ds = 0; ds < 3; ++ds) for (int f = 0; f < NFEAT; ++f) {
       if (f == FCONSTRAINT) continue;
